@@ -453,3 +453,11 @@ def _defaultdict(ctx, st, factory=None):
 @external("typing.cast")
 def _cast(ctx, st, ty, v):
     return v
+
+
+@external("types.FunctionType")
+def _FunctionType(ctx, st, code, globals_=None, name=None, argdefs=None, closure=None, **kw):
+    """ASSUMED: types.FunctionType(code, ...) is a new function object running `code`"""
+    from pyvc.values import FuncRef
+    f = code.fields["_func"]
+    return FuncRef(f.dotted, co_name=code.fields.get("co_name"), fresh=True)
